@@ -110,6 +110,13 @@ def run(ctx):
     r3.check(table == want, ccon + "::failure-test", "raises BackendError iff the exit status is non-zero or 'error:' appears on stderr; otherwise returns stdout",
              f"call() over (exit!=0, 'error:' on stderr) gives {table}; a failing scheduler command must raise BackendError for each failure kind and a succeeding one "
              "must hand back its stdout (a rejected submission would otherwise be recorded as accepted)", call_f.where)
+    for rname, rfn in idx.command_runners().items():
+        if rfn.key == call_f.key:
+            continue
+        t2, _f2 = eval_call_failure(ctx, fn=rfn)
+        r3.check(t2 == want, f"{rfn.module.relpath}::{rfn.qual}::failure-test", "the sibling runner applies the same failure test as call()",
+                 f"{rfn.qual}() over (exit!=0, 'error:' on stderr) gives {t2}; a failing scheduler command must raise BackendError for each failure kind (a failing "
+                 "state query would otherwise read as 'no such job' and the next run submits duplicates)", rfn.where)
     from .schedmodel import cluster_witness
     report_witness(r3, "src/gwf/backends::<X>Ops.submit_target::scheduler-model", "src/gwf/backends/slurm.py:1", cached_witness(ctx, "cluster", cluster_witness),
                    "a submission the scheduler refuses (unknown prerequisite, answer without a job id) raises; the id handed back is the id of the job the scheduler created",
@@ -134,6 +141,7 @@ def run(ctx):
                      "uncaptured stream a failing command is not recognised", loc(c_, call_f.module))
     # who may use subprocess
     allowed = {"gwf.backends.utils:call", "gwf.workflow:Workflow.shell"}
+    runner_keys = sorted({"gwf.backends.utils:call"} | {fi.key for fi in idx.command_runners().values()})   # `call` and its siblings (what each may do is decided above and below)
     n_sites = 0
     for f_ in idx.functions.values():
         if f_.module.name == "gwf.backends.local":
@@ -143,7 +151,7 @@ def run(ctx):
                 c = idx.canon(n.func, f_.module) or ""
                 if c.startswith(("subprocess.", "os.system", "os.popen", "os.spawn", "os.exec")):
                     n_sites += 1
-                    r3.check(f_.key in allowed or res.owned_by(f_, ["gwf.backends.utils:call"]), f"{f_.module.relpath}::{f_.qual}::{c}", "subprocess used by an allowed owner (or a private helper only it calls)",
+                    r3.check(f_.key in allowed or f_.key in runner_keys or res.owned_by(f_, runner_keys), f"{f_.module.relpath}::{f_.qual}::{c}", "subprocess used by an allowed owner (or a private helper only it calls)",
                              f"{c} is used outside backends.utils.call: a scheduler command run here escapes the failure detection", loc(n, f_.module))
     # every Ops method talks to the scheduler through call()
     for mod, cname in (("gwf.backends.slurm", "SlurmOps"), ("gwf.backends.sge", "SGEOps"), ("gwf.backends.lsf", "LSFOps")):
@@ -173,6 +181,14 @@ def run(ctx):
             r3.violation(ccon + "::once", d_, call_f.where)
         if not once:
             r3.ok(ccon + "::once", "a submit command is started once; a time limit (if any) kills and reaps the child before the failure is reported", call_f.where)
+    from .evalhelpers import eval_mutating_commands_unlimited
+    mu_d, mu_n, mu_unsup = eval_mutating_commands_unlimited(ctx)
+    for d_ in mu_d:
+        r3.violation(ccon + "::mutating-unlimited", d_, call_f.where)
+    if not mu_d and mu_unsup is None:
+        r3.ok(ccon + "::mutating-unlimited", f"{mu_n} submit/cancel methods evaluated down to subprocess with every optional setting on: no time limit reaches the command", call_f.where)
+    elif mu_unsup is not None and not mu_d:
+        r3.info(ccon + "::mutating-unlimited", f"not evaluated ({mu_unsup})")
     for failing in ("sacct", "squeue"):
         _r, err, _q, _s, m = eval_slurm_states(ctx, 5, True, fail=failing)
         r3.check(err is not None and err.startswith("BackendError"), f"{m.module.relpath}::{m.qual}::{failing}-failure", f"a failing {failing} alone propagates as BackendError",
